@@ -369,6 +369,36 @@ func (g *mgen) stmt(f *mfile, sc *scope, allowExport bool) {
 			sc.vals = append(sc.vals, n)
 		}
 		g.note("wrap:decl-" + kw)
+	case k < 64 && r.Chance(60): // destructuring with impure defaults against every array-literal shape
+		shapes := []string{"", "undefined", "void 0", "", "null", "7", sc.any(r), "...[]", "...[undefined]", "...[5]", "\"\"", "0"}
+		nb := r.Range(1, 3)
+		wrap := r.Intn(20) // 0-4 try, 5-7 class static block, else bare top-level declaration
+		var pats, lits []string
+		for i := 0; i < nb; i++ {
+			n := g.name(f, "h")
+			switch c := r.Intn(5); {
+			case c == 0 && wrap < 8: // a throwing default (only where it is caught: a top-level throw would abort the module)
+				pats = append(pats, n+" = (() => { throw $p("+g.id(f)+", new RangeError(\"d\")); })()")
+			case c == 1:
+				pats = append(pats, n)
+			default:
+				pats = append(pats, n+" = "+g.hidden(f))
+			}
+		}
+		for i := r.Intn(nb + 2); i > 0; i-- {
+			lits = append(lits, shapes[r.Intn(len(shapes))])
+		}
+		kw := r.Pick([]string{"const", "let", "var"})
+		decl := kw + " [" + strings.Join(pats, ", ") + "] = [" + strings.Join(lits, ", ") + "];"
+		switch {
+		case wrap < 5:
+			add("try { " + decl + " } catch (e) { $p(" + g.id(f) + ", e && e.name); }")
+		case wrap < 8:
+			add("class " + g.name(f, "k") + " { static { try { " + decl + " } catch (e) { $p(" + g.id(f) + ", e && e.name); } } }")
+		default:
+			add(decl)
+		}
+		g.note("wrap:destructure-shapes")
 	case k < 64: // destructuring
 		n := g.name(f, "h")
 		switch r.Intn(5) {
